@@ -231,25 +231,30 @@ def activeFromEntrypoints (nodes : List NodeD) (es : List Edge) (eps : List Name
   let r := eps ++ eps.flatMap (descendants es nodes.length)
   (nodes.map (·.name)).filter fun n => r.contains n
 
-/-- worklist of `_active_from_selection`; `fuel` bounds the number of pops -/
+/-- worklist of `_active_from_selection`: a stack (`worklist.pop()` takes the LAST element);
+`fuel` bounds the number of pops. A gate's target that is already needed is skipped together with
+its descendants, exactly as in the code. -/
 def selectionWalk (nodes : List NodeD) (es : List Edge) (active : List Name) :
     Nat → List Name → List Name → List Name
   | 0, _, needed => needed
-  | _, [], needed => needed
-  | fuel + 1, name :: rest, needed =>
-    if needed.contains name || !active.contains name then selectionWalk nodes es active fuel rest needed
-    else
-      let needed' := needed ++ [name]
-      let ps := (preds es name).filter fun p => active.contains p
-      let gateExtra : List Name :=
-        match findNode nodes name with
-        | some nd =>
-          if nd.isGate then
-            (nd.targetNames.filter fun t => active.contains t).flatMap fun t =>
-              t :: (descendants es nodes.length t)
-          else []
-        | .none => []
-      selectionWalk nodes es active fuel (rest ++ ps ++ gateExtra) needed'
+  | fuel + 1, stack, needed =>
+    match stack.getLast? with
+    | .none => needed
+    | some name =>
+      let rest := stack.dropLast
+      if needed.contains name || !active.contains name then selectionWalk nodes es active fuel rest needed
+      else
+        let needed' := needed ++ [name]
+        let ps := (preds es name).filter fun p => !needed'.contains p
+        let gateExtra : List Name :=
+          match findNode nodes name with
+          | some nd =>
+            if nd.isGate then
+              (nd.targetNames.filter fun t => active.contains t && !needed'.contains t).flatMap fun t =>
+                t :: ((descendants es nodes.length t).filter fun d => !needed'.contains d)
+            else []
+          | .none => []
+        selectionWalk nodes es active fuel (rest ++ ps ++ gateExtra) needed'
 
 def activeFromSelection (nodes : List NodeD) (es : List Edge) (active : List Name) (sel : List Name) : List Name :=
   let sub := es.filter fun e => active.contains e.src && active.contains e.dst
